@@ -181,6 +181,30 @@ def shard(ctx, si, payload):
                         i = int(bad[0])
                         b_, a_, e_ = sel[i][:3]
                         ctx.violation("clamp" if b_ < math.radians(1.0) else "f64-logic", f"detector {det_alt} km [{nm}]: the batch call gives (density {dB[i] if dB.size > i else None!r}, angle {cB[i] if cB.size > i else None!r}) for beta={math.degrees(b_):.4f} deg, alt={a_:.4f} km, E={e_:.4g}x100PeV; the same event through run() gives ({want_d[i]!r}, {want_c[i]!r}) ({bad.size} of {len(sel)} events)", {"det_alt": det_alt, "beta": float(b_).hex(), "alt": float(a_).hex(), "E100PeV": float(e_).hex(), "path": "batch"})
+        # ---- input dtypes on the batch path: the same (exactly representable) values as half / single
+        #      precision and integer arrays give what the float64 arrays give
+        import contextlib as _cl
+        import io as _io
+
+        import dask as _dask
+
+        base_in = [np.radians(np.array([10.0, 30.0])), np.array([5.0, 2.0]), np.array([1.0, 100.0]), np.zeros(2), np.zeros(2)]
+        try:
+            with _dask.config.set(scheduler="synchronous"), _cl.redirect_stdout(_io.StringIO()):
+                d_w, c_w = (np.asarray(x, dtype=np.float64) for x in k32(*[x.copy() for x in base_in]))
+            for nm_, idx_, dt_ in (("float16 shower energy", 2, np.float16), ("float32 shower energy", 2, np.float32), ("int64 shower energy", 2, np.int64), ("int64 decay altitude", 1, np.int64), ("float32 decay altitude", 1, np.float32)):
+                arrs = [x.copy() for x in base_in]
+                arrs[idx_] = arrs[idx_].astype(dt_)
+                ctx.count("dtype")
+                try:
+                    with _dask.config.set(scheduler="synchronous"), _cl.redirect_stdout(_io.StringIO()):
+                        d_g, c_g = (np.asarray(x, dtype=np.float64) for x in k32(*arrs))
+                    if not (d_g.shape == d_w.shape and np.all(np.abs(d_g - d_w) <= 1e-4 * np.abs(d_w)) and np.all(np.abs(c_g - c_w) <= 1e-4 * np.abs(c_w))):
+                        ctx.violation("dtype", f"detector {det_alt} km: the batch call with {nm_} gives density {d_g.tolist()}, angle {c_g.tolist()}; the same numbers as float64 give {d_w.tolist()}, {c_w.tolist()}", {"det_alt": det_alt, "case": nm_})
+                except Exception as ex:
+                    ctx.exception("dtype", f"detector {det_alt} km: the batch call with {nm_} raised", ex, {"det_alt": det_alt, "case": nm_})
+        except Exception as ex:
+            ctx.exception("raises", "CphotAng.__call__ raised on two in-domain events", ex, {"det_alt": det_alt})
         ctx.obs["_f32_rel_devs"] = [float(x) for x in devs]
         ctx.obs["_zsteps_tuples"] = [[float(x).hex() for x in t] for t in tuples[:: max(1, len(tuples) // 400)]]
     finally:
@@ -251,7 +275,7 @@ def run(ctx):
     if ctx.want("sanitizer") or ctx.only is None:
         sanitizer(ctx, tuples_hex)
     ctx.observe("zsteps_so_matches_source", inject.so_matches_source())
-    for m in ("batch-path", "f32-band", "f64-logic", "clamp", "stepping", "stepping-vs-reference", "sanitizer", "f32-median"):
+    for m in ("dtype", "batch-path", "f32-band", "f64-logic", "clamp", "stepping", "stepping-vs-reference", "sanitizer", "f32-median"):
         ctx.require(m)
     return ctx.finish(
         rule="stratified grid over [0,42 deg] x [0,20 km] x [1e-5,1e4] x 100 PeV incl. all faces, hostile extras (0, 0.25, 0.999999, 1 deg; 10.999999/11/20 km; exact decades) and seeded random points; detector altitudes 525 km (3/4), 33 km and 1000 km (thorough: also 21, 100 and 36000 km); a case is a distinct (detector, beta, altitude, energy); energies within 1e-9 of a power of ten are excluded from the double-precision comparison only (int(log10 E) is a legitimate discontinuity)",
